@@ -1674,9 +1674,12 @@ static int parse_loop_packets(struct scanner_s *scanner, cif_loop_tp *loop, stri
                                         case CIF_TRAVERSE_SKIP_SIBLINGS:
                                             scanner->skip_depth = 2;
                                             break;
+                                        case CIF_TRAVERSE_CONTINUE:
+                                            break;
                                         case CIF_TRAVERSE_END:
+                                        default:
+                                            /* end the parse, or abort it with the handler's error code */
                                             goto packets_end;
-                                        /* default: do nothing */
                                     }
                                 }
                             }
